@@ -83,6 +83,13 @@ one `unsat` query on the path condition (individual queries only if that fails).
 (section 2.4). `unknown` is never a pass: a harness may offer candidate inputs that are replayed on the real code (a reproduced
 violation is reported, exit 1); otherwise the run is inconclusive (exit 2).
 
+**Time limits.** Every query has a wall-clock limit (20 s; 5 s for the opportunistic value-merging queries of the algebra model).
+A proof obligation that times out is repeated once with six times the limit before it counts as `unknown`. A branch-feasibility
+or merging query that times out is treated as "feasible" / "not merged" (an over-approximation: it can only add paths, and a
+spurious path shows up as a non-reproducing counterexample, exit 2, never as a pass); it is repeated only when the process
+demonstrably got less than 70 % of a core while it ran (CPU time against wall time — the limit is wall-clock and the checks run 16
+jobs in parallel), so a loaded machine does not change verdicts and a genuine time-out is not paid twice.
+
 ### 2.2 Value model
 
 * `int` → `SymInt` over a z3 `Int` (mathematical integers: Python ints do not wrap), with optional width / magnitude hints.
@@ -346,7 +353,10 @@ realistic change that breaks the property while all 267 tests still pass and tha
 was confirmed by me (tests, the agent's demonstration on both trees) and is kept under `seeded/<id>/` (`patch.diff`, `demo.py`,
 `notes.md`, `meta.json`). None is committed to `/repo`. "first" is the result of the check as it stood when the change arrived;
 where it missed, the check was strengthened (never specialised to the change: the added harnesses widen a bound or add an
-obligation) and re-run.
+obligation) and re-run. From the third batch on the changes were evaluated in their own worktrees (`VERIF_REPO=<worktree>
+./check <ID>`, a development override the registered commands never set), so `/repo` stayed untouched while other checks ran.
+
+@SUMMARY@
 
 | seed | property | what the change needs to manifest | first | after strengthening |
 |------|----------|-----------------------------------|-------|---------------------|
@@ -376,8 +386,14 @@ they replace (`deque.extend`), because a realistic change may use any of it.
   `checks/registry.py`; this file by `mkdesign.py`.
 * No hooks were needed in `/repo` (`MANIFEST.hooks`: add-only, guard `TAPESCRIPT_VERIF`, no source commits): the engine loads and
   instruments the sources itself. `/repo` carries only the `fix:` commits of section 6.
-* Tiers: quick is the per-change check (whole suite ≈ 12 min sequentially); thorough widens the bounds listed per property
-  (more items, longer operands, deeper nestings, longer histories, more shapes).
+* Tiers: quick is the per-change check (whole suite ≈ 15 min sequentially on 16 cores); thorough widens the bounds listed per
+  property (more items, longer operands, deeper nestings, longer histories, more shapes). Every thorough command was run end to
+  end; where a first version did not finish, the bound was cut and the cut is stated in the bounds: C01 (3-byte locks starting with
+  OP_COPY / hashes / signing instructions: two of 64 splits ran beyond 90 minutes), C04 (builders beyond 8 leaves: a 9-leaf job
+  takes more than ten minutes), C17 (the full builder flows did not finish in 80 minutes; thorough keeps the lite flows for more
+  flag values), C19 (registry histories of length 6 over a 12-operation alphabet). Measured thorough wall times: C02 3 min, C03 51
+  min, C05 1 min, C06 6 min, C07 1 min, C08 1 min, C10 11 min, C12 20 min, C13 7 min, C15 6 min, C18 25 min, C20 2 min, the
+  others under a minute.
 '''
 
 
@@ -422,7 +438,13 @@ def main():
             continue
         line = e['line'].split(' ', 3)[3] if e['line'].startswith('fixed:') else e['what']
         out.append(f"| {e['id']} | {e['property']} | {md_escape(line)} | `{e['commit']}` |\n")
-    out.append(TAIL_MID)
+    metas = [json.load(open(d)) for d in sorted(glob.glob('/verif/seeded/*/meta.json'))]
+    n_c = sum(1 for m in metas if m['first_result'].startswith('caught'))
+    n_e = sum(1 for m in metas if m['first_result'].startswith('exit 2'))
+    n_m = len(metas) - n_c - n_e
+    out.append(TAIL_MID.replace('@SUMMARY@', f'{len(metas)} changes in nine rounds: {n_c} were reported (exit 1) by the check as it stood, {n_e} were '
+               f'detected symbolically but left the check with exit 2 (a replay that was too narrow, or an unsupported construct), '
+               f'{n_m} were missed (exit 0). After strengthening, every one of them is reported with exit 1 and a replayed counterexample.'))
     for d in sorted(glob.glob('/verif/seeded/*/meta.json')):
         m = json.load(open(d))
         sid = os.path.basename(os.path.dirname(d))
